@@ -30,6 +30,7 @@
    This file holds statements only. *)
 From Coq Require Import String List Bool Arith.
 From PM Require Import Semiring Poly Rel Analysis An_stmts An_total.
+From PM Require Rel Rel_sem Rel_term.
 Import ListNotations.
 
 (* (1) No spurious error at statement level: compute_relation either returns, or runs out of one of
@@ -76,9 +77,24 @@ Theorem C06_operator_outside_BIN_OPS_raises :
   compute 3 0 (SBin "x" "/" (AVar "y") (AVar "z")) (DeltaGraph.dg_new 3) = RErr "AssertionError:create_vector".
 Proof. exact ex_op. Qed.
 
+(* Relation.fixpoint TERMINATES: the iteration "sum of powers until syntactically stable" stops for every
+   well-formed relation (the down-closure, under the domination order, of each cell grows strictly at every
+   non-final round inside a finite universe of monomials), and its result does not depend on the fuel once
+   it is large enough; in particular for the two relations the analysis closes loops on. *)
+Theorem C06_fixpoint_terminates : forall r, Rel_sem.wf_rel r -> Rel_sem.rel_pwf r ->
+  exists fuel f, forall fuel', fuel <= fuel' -> Rel.rel_fixpoint fuel' r = Some f.
+Proof. exact Rel_term.rel_fixpoint_terminates_stable. Qed.
+
+Theorem C06_loop_closures_terminate : forall body x, Rel_sem.wf_rel body -> Rel_sem.rel_pwf body ->
+  (exists fuel f, Rel.rel_fixpoint fuel (Rel.rel_comp Rel.rel_empty body) = Some f) /\
+  (exists fuel f, Rel.rel_fixpoint fuel (Rel.rel_comp (Rel.rel_zero [x]) body) = Some f).
+Proof. exact Rel_term.rel_fixpoint_total_for_analysis. Qed.
+
 Print Assumptions C06_compute_no_spurious_error.
 Print Assumptions C06_fuel_sufficient_nesting.
 Print Assumptions C06_compute_result_ok.
 Print Assumptions C06_analyse_no_spurious_error.
 Print Assumptions C06_analyse_fuel_sufficient.
 Print Assumptions C06_operator_outside_BIN_OPS_raises.
+Print Assumptions C06_fixpoint_terminates.
+Print Assumptions C06_loop_closures_terminate.
